@@ -527,7 +527,7 @@ def r8_worker_contract(a, tier):
     rep = RuleReport(
         'C18.R8',
         'the worker function taskproc, interpreted with a scripted user function: the result carries the outcome when the function '
-        'returns; an exception is stored on the result and NOT raised when the payload captures it (raises() empty or naming its '
+        'returns (also a falsy outcome: 0, "", [], {}, (), False); an exception is stored on the result and NOT raised when the payload captures it (raises() empty or naming its '
         'type), raised when reraise is set or raises() names other types; a task that finds the run stopped reports an exception',
         floor=5,
     )
@@ -547,11 +547,11 @@ def r8_worker_contract(a, tier):
             return any(isinstance(x, type) and issubclass(exc_class(e), x) for x in rs)
         return isinstance(e, r) if isinstance(r, (type, tuple)) else False
 
-    def run(stopped=False, raises_=(), reraise=False, fails=None):
+    def run(stopped=False, raises_=(), reraise=False, fails=None, returns='OUT'):
         def func(payload, *x, **k):
             if fails:
                 raise Raised(fails, ast.Pass())
-            return 'OUT'
+            return returns
         payload = Obj(raises=None, path='p')
         stop = Obj()
         task = Hook(None, stop=Hook(None, is_set=Hook(lambda: stopped), set=Hook(lambda: None)), func=Hook(func), payload=Hook(None, raises=Hook(lambda: raises_), path='p'),
@@ -570,6 +570,8 @@ def r8_worker_contract(a, tier):
 
     cases = [
         ('the function returns', dict(), lambda r, x: x is None and r is not None and r.outcome == ('PICKLED', 'OUT') and r.exception is None),
+        *[(f'the function returns the falsy value {v!r}', dict(returns=v), (lambda r, x, v=v: x is None and r is not None and r.outcome == ('PICKLED', v) and type(r.outcome[1]) is type(v) and r.exception is None))
+          for v in (0, 0.0, '', [], {}, (), False)],
         ('ValueError, payload captures everything', dict(fails='ValueError'), lambda r, x: x is None and r is not None and isinstance(r.exception, Raised) and r.exception.cls_name == 'ValueError'),
         ('ValueError, reraise set', dict(fails='ValueError', reraise=True), lambda r, x: x == 'ValueError'),
         ('ValueError, raises() names ValueError', dict(fails='ValueError', raises_=(ValueError,)), lambda r, x: x is None and r is not None and r.exception is not None),
